@@ -218,7 +218,8 @@ def gen_problem(rng, with_transform):
             # coercive sign pattern: a0 <= 0 with a2 > 0 keeps every boundary set below uniquely solvable
             coeffs.append(["const", -round(rng.uniform(0.0, 2.0), 3)])
         elif kind == "const":
-            coeffs.append(["const", round(rng.uniform(-1.5, 1.5), 3)])
+            # (a vanishing lower-order coefficient is a legitimate equation too)
+            coeffs.append(["const", 0.0 if rng.random() < 0.2 else round(rng.uniform(-1.5, 1.5), 3)])
         elif kind == "lin":
             coeffs.append(["lin", round(rng.uniform(-1, 1), 3), round(rng.uniform(-0.5, 0.5), 3)])
         else:
@@ -229,7 +230,8 @@ def gen_problem(rng, with_transform):
     elif order == 2:
         bc = rng.choice([[[0, 0], [1, 0]], [[0, 0], [1, 1]], [[0, 1], [1, 0]]])
     else:
-        bc = rng.choice([[[0, 0], [0, 1], [1, 0]], [[0, 0], [1, 0], [1, 1]], [[0, 0], [0, 1], [0, 2]]])
+        bc = rng.choice([[[0, 0], [0, 1], [1, 0]], [[0, 0], [1, 0], [1, 1]], [[0, 0], [0, 1], [0, 2]], [[0, 0], [1, 0], [1, 2]], [[0, 0], [0, 2], [1, 0]],
+                         [[0, 1], [1, 0], [1, 1]]])
     # the same equation multiplied through by a constant (1e-10 ... 1e8) has the same solution: coefficients and, through
     # them, the right-hand side are scaled together (scale invariance of a linear ODE)
     if rng.random() < 0.3:
